@@ -145,7 +145,7 @@ func TestC01Rapid(t *testing.T) {
 			maxSteps = 8
 		}
 		p := g.AxisPath(ctx, xgen.PathOpts{MaxSteps: maxSteps, AbsShare: 4, DSlash: 2})
-		l := &harness.Live{Property: "C01", Check: "C01/select-set", Doc: doc, Ctx: ctx, AST: p, Expr: xast.Render(p), Flavour: flavourOf(rt)}
+		l := &harness.Live{Property: "C01", Check: "C01/select-set", Doc: doc, Ctx: ctx, AST: p, Expr: renderDrawn(rt, p), Flavour: flavourOf(rt)}
 		info, f := oracleC01(l)
 		if f != nil {
 			if inconclusive(uC01Rapid, f) {
